@@ -57,6 +57,10 @@ def plans(world, info, seed, tier):
     if world["class"] != "NumPathsOptimization":
         specs.append({"world": w2, "sim": {"latency": "instant", "reply": rng.choice(["canonical", "alt"]), "reply_seed": rng.randrange(1 << 30), "faults": []},
                       "monitor": False})
+    w4 = mr.greedy_variant(world, random.Random(H(seed, TAG + "plans-greedy")))
+    if w4 is not None and w4["args"].get("subpath_constraints"):
+        # the greedy shortcut has to be abandoned when its paths do not meet a constraint
+        specs.append({"world": w4, "sim": {"latency": "instant", "reply": "canonical", "reply_seed": 7, "faults": []}, "monitor": False})
     w3 = mr.length_variant(world, rng)
     if w3 is not None:
         specs.append({"world": w3, "sim": {"latency": "instant", "reply": rng.choice(["canonical", "alt"]), "reply_seed": rng.randrange(1 << 30), "faults": []},
